@@ -38,11 +38,11 @@ Theorem C07_settle_wakes_channel :
 Proof. exact settle_arms_channel. Qed.
 Print Assumptions C07_settle_wakes_channel.
 
-(* a new consumer starts armed *)
+(* a new consumer starts armed (under the tag it asked for, or the one the server made up for an empty tag) *)
 Theorem C07_new_consumer_armed :
   forall cfg fx s c h q tag noack excl nowait s' evs,
     handle_method cfg fx s c h (MConsume q tag noack excl nowait) = (s', evs, None) ->
-    get_chan s c h <> None -> armed s' c h tag.
+    get_chan s c h <> None -> armed s' c h (eff_tag s tag).
 Proof. exact consume_arms. Qed.
 Print Assumptions C07_new_consumer_armed.
 
